@@ -9,8 +9,10 @@ package main
 // early error returns) and refuses anything else.
 
 import (
+	"bytes"
 	"fmt"
 	"go/ast"
+	"go/printer"
 	"go/token"
 	"strconv"
 	"strings"
@@ -704,6 +706,11 @@ func extractC26(repo string) (string, error) {
 		return "", err
 	}
 	b.WriteString(cf2)
+	pf, err := c26PendingFacts(repo)
+	if err != nil {
+		return "", err
+	}
+	b.WriteString(pf)
 	b.WriteString("end WK.Gen.C26\n")
 	return b.String(), nil
 }
@@ -925,4 +932,124 @@ func c26IsMakeChan1(e ast.Expr) bool {
 	}
 	ct, ok := c.Args[0].(*ast.ChanType)
 	return ok && ct.Dir == ast.SEND|ast.RECV && exprText(ct.Value) == "rpc.Response"
+}
+
+// c26PendingFacts (round 6): the bodies of rpc.PendingTable's Store / Delete / Complete /
+// FailAll and of trySend, linearised statement by statement in source order (nested
+// blocks bracketed by "if c {" / "for … {" / "select {" / "case … :" / "}").  The LTS of
+// WK/Model/C26.lean takes its atomic regions from exactly these lock/unlock positions;
+// c26_pending_regions_src pins the lists, so moving a send into a lock region, releasing
+// closeMu before the insert, dropping the `default:` of trySend … breaks the theorem.
+func c26PendingFacts(repo string) (string, error) {
+	_, pf, err := parseFile(repo, "pkg/transport/internal/rpc/pending.go")
+	if err != nil {
+		return "", err
+	}
+	var b strings.Builder
+	emit := func(name, doc string, fd *ast.FuncDecl) error {
+		if fd == nil || fd.Body == nil {
+			return fmt.Errorf("pending.go: %s not found", name)
+		}
+		var out []string
+		if err := c26Linear(fd.Body.List, &out); err != nil {
+			return fmt.Errorf("pending.go %s: %v", name, err)
+		}
+		var q []string
+		for _, s := range out {
+			q = append(q, leanStr(s))
+		}
+		fmt.Fprintf(&b, "/-- %s -/\ndef %s : List String := [\n  %s]\n", doc, name, strings.Join(q, ",\n  "))
+		return nil
+	}
+	for _, m := range []struct{ lean, recv, name string }{
+		{"pendingStoreProg", "PendingTable", "Store"},
+		{"pendingDeleteProg", "PendingTable", "Delete"},
+		{"pendingCompleteProg", "PendingTable", "Complete"},
+		{"pendingFailAllProg", "PendingTable", "FailAll"},
+		{"pendingShardForProg", "PendingTable", "shardFor"},
+	} {
+		if err := emit(m.lean, "pending.go PendingTable."+m.name+": statements in source order", findMethod(pf, m.recv, m.name)); err != nil {
+			return "", err
+		}
+	}
+	if err := emit("pendingTrySendProg", "pending.go trySend: statements in source order", findFunc(pf, "trySend")); err != nil {
+		return "", err
+	}
+	b.WriteString("\n")
+	return b.String(), nil
+}
+
+func c26Linear(list []ast.Stmt, out *[]string) error {
+	for _, s := range list {
+		switch v := s.(type) {
+		case *ast.ExprStmt:
+			*out = append(*out, c26Src(v.X))
+		case *ast.AssignStmt:
+			*out = append(*out, c26SrcList(v.Lhs)+v.Tok.String()+c26SrcList(v.Rhs))
+		case *ast.SendStmt:
+			*out = append(*out, c26Src(v.Chan)+"<-"+c26Src(v.Value))
+		case *ast.ReturnStmt:
+			*out = append(*out, strings.TrimSpace("return "+c26SrcList(v.Results)))
+		case *ast.IfStmt:
+			if v.Init != nil || v.Else != nil {
+				return fmt.Errorf("if with init/else")
+			}
+			*out = append(*out, "if "+c26Src(v.Cond)+" {")
+			if err := c26Linear(v.Body.List, out); err != nil {
+				return err
+			}
+			*out = append(*out, "}")
+		case *ast.RangeStmt:
+			k, val := "_", "_"
+			if v.Key != nil {
+				k = c26Src(v.Key)
+			}
+			if v.Value != nil {
+				val = c26Src(v.Value)
+			}
+			*out = append(*out, "for "+k+","+val+" range "+c26Src(v.X)+" {")
+			if err := c26Linear(v.Body.List, out); err != nil {
+				return err
+			}
+			*out = append(*out, "}")
+		case *ast.SelectStmt:
+			*out = append(*out, "select {")
+			for _, c := range v.Body.List {
+				cc := c.(*ast.CommClause)
+				if cc.Comm == nil {
+					*out = append(*out, "default:")
+				} else {
+					var one []string
+					if err := c26Linear([]ast.Stmt{cc.Comm}, &one); err != nil {
+						return err
+					}
+					*out = append(*out, "case "+strings.Join(one, ";")+":")
+				}
+				if err := c26Linear(cc.Body, out); err != nil {
+					return err
+				}
+			}
+			*out = append(*out, "}")
+		default:
+			return fmt.Errorf("unsupported statement %T", s)
+		}
+	}
+	return nil
+}
+
+// c26Src prints any expression with go/printer, white space removed.
+func c26Src(e ast.Expr) string {
+	var buf bytes.Buffer
+	if err := printer.Fprint(&buf, token.NewFileSet(), e); err != nil {
+		return "<unprintable>"
+	}
+	return strings.Join(strings.Fields(buf.String()), "")
+}
+
+func c26SrcList(es []ast.Expr) string {
+	var s []string
+	for _, e := range es {
+		s = append(s, c26Src(e))
+	}
+	return strings.Join(s, ",")
 }
